@@ -421,7 +421,10 @@ class C07Oracle(Oracle):
         sim.k.after(0.03, self.step, tag="app")
 
     def flood(self):
-        k = self.ch.choose(4)
+        k = self.ch.choose(5)
+        if k == 4:
+            self.inorder_crypto_burst()
+            return wf.encode_ping(), "CRYPTO(in-order burst)", None, True
         if k == 0:
             off = (0, 1000, 524288 - 10, 524288, 524289, 1 << 40)[self.ch.choose(6)]
             start = self.target.conn._crypto_streams[list(self.target.conn._crypto_streams)[-1]].receiver.starting_offset()
@@ -444,6 +447,38 @@ class C07Oracle(Oracle):
                 "NEW_CONNECTION_ID(seq=%d, rpt=%d)" % (seq, rpt), None, True  # outcome not modelled here (C18)
         sid = self.pick_sid()
         return wf.encode_stream(sid, 0, b"", False), "STREAM(empty, sid=%d)" % sid, None, True
+
+    def inorder_crypto_burst(self):
+        """Handshake data that arrives perfectly in order but never completes a message: a message header that
+        announces 16 MiB, then contiguous CRYPTO frames. Nothing is out of order, so the reassembly buffer stays
+        empty; what the connection holds for the peer (reassembly + the TLS input buffer) must stay bounded all
+        the same."""
+        t = self.target
+        conn = t.conn
+        try:
+            stream = conn._crypto_streams[list(conn._crypto_streams)[-1]]
+            off = stream.receiver.starting_offset()
+        except Exception:
+            return
+        chunk = 1100
+        first = True
+        self.kinds["crypto-inorder-burst"] = self.kinds.get("crypto-inorder-burst", 0) + 1
+        for _ in range(520):
+            data = (b"\x04\xff\xff\xff" + bytes(chunk - 4)) if first else bytes(chunk)
+            first = False
+            try:
+                pkt = self.forger.build(self.peer, "1rtt", self.acks() + wf.encode_crypto(off, data))
+            except Exception:
+                return
+            off += len(data)
+            d = self.forger.inject(t, pkt, src=self.peer.addr, tag="forged-c07")
+            try:
+                t.on_datagram(d, 0)
+            except EndpointBroken:
+                return
+            self.measure()
+            if conn._state.name != "CONNECTED" or conn._close_pending:
+                return
 
     # ------------------------------------------------------------------ judge
     def on_event(self, ep, ev):
@@ -497,6 +532,12 @@ class C07Oracle(Oracle):
             if len(st.receiver._buffer) > 524288:
                 raise Violation("c07.buffer", "crypto-buffer-beyond-max-pending",
                                 "CRYPTO reassembly for %s holds %d bytes" % (epoch, len(st.receiver._buffer)))
+        held = sum(len(st.receiver._buffer) for st in conn._crypto_streams.values()) + len(
+            getattr(conn.tls, "_receive_buffer", b""))
+        if held > 524288 + 4096:
+            raise Violation("c07.buffer", "handshake-data-beyond-max-pending",
+                            "the connection holds %d bytes of handshake data for the peer (CRYPTO reassembly plus the TLS "
+                            "input buffer of an incomplete message), the documented bound is %d" % (held, 524288))
         for path in conn._network_paths:
             if len(path.remote_challenges) > 32:
                 raise Violation("c07.buffer", "remote-challenges-beyond-32",
